@@ -34,6 +34,8 @@ CHECKS = {
          "every successful vest / claim / cancel / vest-now of an observed account is compared (entries, claimable Eden, uelys balance before vs after) with the monitor's own schedule floor(Total*min(h-start,N)/N); conservation Eden in == released + returned + still vesting; every claim by an account with entries must succeed (judged from the block log so panics count)", "6/C14", TB),
  "C16": ("exploration", "reference-model monitor (price map + feeder set) compared online at commits and pre-message probes",
          "every GetAssetPrice / GetAssetPriceFromDenom answer for an adversarial name set is compared with a reference map built from the observed successful feeds and the end-block expiry rule; the whole price store must equal the reference after every block; every feed is judged against the reference feeder set", "6/C16", TB),
+ "C04": ("exploration", "settlement-pattern monitor over balance snapshots at pre-message, post-tx and around the AMM end-blocker",
+         "every attributable swap request (all three message types, 1- and 2-hop, foreign recipients, batches with opposite directions and limits) must show either the executed pattern (exact debit / debit <= max, credit >= min / output, no unstated debit) or no movement at all; nothing moves at acceptance time; the transient queue is empty after the batch; idle blocks move nothing", "6/C04", TB),
 }
 
 m = {"version": 1, "setup_cmd": "./setup.sh",
